@@ -575,6 +575,7 @@ func runC13(c *rt.Ctx) {
 	c.Assume("locktimes are now-10^6 s / now+10^6 s: no outcome depends on the wall clock")
 	c.Assume("a lock value written in upper-case hex denotes the same 32 bytes: accepting it with the right preimage is neither demanded nor forbidden")
 	t0 := time.Now()
+	lkLibSerializer(c, "C13", "HTLC", now)
 	c13Layer1(c, now)
 	c.Cov["layer1_wall_s"] = time.Since(t0).Seconds()
 	t1 := time.Now()
